@@ -327,6 +327,12 @@ func c17Judge(ctx *core.Ctx, cs *c17Case, rg *ref.WG, reach map[string]map[strin
 	if pure && !strings.Contains(o.cycles, "hasCyclesAtCompileTime:true") {
 		return viol("compile-time-cycle-missed", "two or more relations form a cycle of pure computed usersets, GetCycles() = "+o.cycles, "hasCyclesAtCompileTime:true", o.cycles)
 	}
+	if !pure && strings.Contains(o.cycles, "hasCyclesAtCompileTime:true") {
+		return viol("compile-time-cycle-invented", "no two relations form a cycle of pure computed usersets (every cycle of the model passes a direct, tuple-to-userset or operator edge), GetCycles() = "+o.cycles, "hasCyclesAtCompileTime:false", o.cycles)
+	}
+	if !pure && !acyclic {
+		ctx.Flag("c17:mixed-cycle")
+	}
 	if acyclic && o.cycles != "{hasCyclesAtCompileTime:false canHaveCyclesAtRuntime:false}" {
 		return viol("cycle-reported-on-acyclic-model", "the model is acyclic, GetCycles() = "+o.cycles, "both flags false", o.cycles)
 	}
@@ -482,6 +488,52 @@ func c17One(ctx *core.Ctx, i int, tm gen.Tagged) {
 	}
 }
 
+// c17MixedCycles: cycles of computed usersets closed by ONE edge of another kind (a direct userset restriction, a tuple to
+// userset, an operator), with that edge at every position of the cycle (which edge a cycle enumeration meets last depends on
+// the order of the relation names), alone and next to a pure computed cycle.
+func c17MixedCycles() []gen.Tagged {
+	var out []gen.Tagged
+	u := ref.Restriction{Type: "user"}
+	closers := []struct {
+		tag string
+		mk  func(target string) ref.Relation
+	}{
+		{"direct userset", func(t string) ref.Relation {
+			return ref.Relation{Rw: ref.T(), Restr: []ref.Restriction{u, {Type: "doc", Relation: t}}}
+		}},
+		{"tuple to userset", func(t string) ref.Relation { return ref.Relation{Rw: ref.TT(t, "p")} }},
+		{"union", func(t string) ref.Relation {
+			return ref.Relation{Rw: ref.U(ref.T(), ref.C(t)), Restr: []ref.Restriction{u}}
+		}},
+	}
+	for _, n := range []int{2, 3, 4} {
+		names := []string{"a", "b", "c", "d"}[:n]
+		for pos := 0; pos < n; pos++ {
+			for _, cl := range closers {
+				for _, withPure := range []bool{false, true} {
+					doc := ref.TypeDef{Name: "doc"}
+					for i, nm := range names {
+						next := names[(i+1)%n]
+						r := ref.Relation{Rw: ref.C(next)}
+						if i == pos {
+							r = cl.mk(next)
+						}
+						r.Name = nm
+						doc.Rels = append(doc.Rels, r)
+					}
+					doc.Rels = append(doc.Rels, ref.Relation{Name: "p", Rw: ref.T(), Restr: []ref.Restriction{{Type: "doc"}}})
+					if withPure {
+						doc.Rels = append(doc.Rels, ref.Relation{Name: "x", Rw: ref.C("y")}, ref.Relation{Name: "y", Rw: ref.C("x")})
+					}
+					out = append(out, gen.Tagged{Tag: fmt.Sprintf("mixed-cycle: %d relations, closed by a %s at position %d, pure cycle beside it: %v", n, cl.tag, pos, withPure),
+						M: &ref.Model{Schema: "1.1", Types: []ref.TypeDef{{Name: "user"}, doc}}})
+				}
+			}
+		}
+	}
+	return out
+}
+
 func c17Models(thorough bool) []gen.Tagged {
 	out := c10Extra()
 	out = append(out, gen.TTUDefectModels()...)
@@ -493,6 +545,7 @@ func c17Models(thorough bool) []gen.Tagged {
 			out = append(out, tm)
 		}
 	}
+	out = append(out, c17MixedCycles()...)
 	sp := gen.NewGraphSpace(false)
 	step := 81
 	if thorough {
@@ -552,7 +605,7 @@ func init() {
 		Technique: "exhaustive exploration of map-iteration schedules inside the repository and the graph library (deviation-bounded DFS) against a reference graph and reachability",
 		Run:       c17Run,
 		Finish: func(r *core.Result) error {
-			for _, f := range []string{"map-sites-reached", "c17:parallel-lines", "c17:pure-computed-cycle", "c17:acyclic"} {
+			for _, f := range []string{"map-sites-reached", "c17:parallel-lines", "c17:pure-computed-cycle", "c17:acyclic", "c17:mixed-cycle"} {
 				if !r.Flags[f] {
 					return fmt.Errorf("C17: guard %q never exercised", f)
 				}
